@@ -281,6 +281,11 @@ def speciesFromFormula (phases : Phases) (default : Option Int) (s : Str) : Exce
   | none => .error "ValueError"
   | some i => mkSubstance (phases.keys ++ speciesExtraSuffixes) (some i) s
 
+/-- `Species.from_formula(formula, phases, default_phase_idx, phase_idx=idx)`: an explicit `phase_idx` keyword is taken as it is
+    (`p_i = kwargs.pop("phase_idx")`): no suffix search, the default is not consulted, nothing is refused on account of the phase -/
+def speciesFromFormulaIdx (phases : Phases) (idx : Int) (s : Str) : Except String Substance :=
+  mkSubstance (phases.keys ++ speciesExtraSuffixes) (some idx) s
+
 /-! ### the reaction printers (`StrPrinter._Reaction_parts` / `_Reaction_str`, no parameter, no name) -/
 
 inductive Printer | str | latex | unicode | html
